@@ -26,6 +26,8 @@ vals = [
     2**63 - 1, 2**63, 2**64 - 1, 2**64,
     # the edge of float32's exact integers, and a double next to 1/2 that float32 rounds to 1/2
     2**24, 2**24 + 1, F(1, 2) + F(1, 2**30),
+    # a single whose exact value has more digits than its shortest round-trip decimal ("1.0000001")
+    1 + F(1, 2**23),
 ]
 # two doubles that differ in the last bit: 0.1+0.2 and 0.3
 vals += [F(0.1 + 0.2), F(0.3)]
@@ -171,7 +173,8 @@ for name, q in [("R_m129", -129), ("R_m128", -128), ("R_m2", -2), ("R_m1h", F(-3
                 ("R_2p53p1", 2**53 + 1), ("R_m2p53", -2**53), ("R_i64max", 2**63 - 1), ("R_2p63", 2**63),
                 ("R_i64min", -2**63), ("R_u64max", 2**64 - 1), ("R_2p64", 2**64),
                 ("R_p1p2", F(0.1 + 0.2)), ("R_p3", F(0.3)),
-                ("R_2p24", 2**24), ("R_2p24p1", 2**24 + 1), ("R_hEps", F(1, 2) + F(1, 2**30))]:
+                ("R_2p24", 2**24), ("R_2p24p1", 2**24 + 1), ("R_hEps", F(1, 2) + F(1, 2**30)),
+                ("R_1eps32", 1 + F(1, 2**23))]:
     out.append("%s == %d" % (name, rank_of[F(q)]))
 out.append("\\* NumReps[n]: Go numeric representations that hold the value exactly")
 out.append("NumReps == " + fun([(str(n["rank"]), "{" + ", ".join(tla_str(r) for r in n["reps"]) + "}") for n in nums]))
